@@ -206,6 +206,23 @@ def run(ctx):
                     continue
             if not moved:
                 break
+    # ---- TIE-C for Model/Defaults.v (dispatch 160-165): get_default_constants and get_variables_with_sort, the tables behind them,
+    # on the scripts of this run and on a corpus of well-formed and malformed sorts
+    import conseqcorr
+    conseqcorr.run(ctx, impl, common.Model(), rng, [smtgen.script_text(c) for c in (scripts if ctx.thorough else scripts[:25])])
+    # ---- real ddmin runs: when a round of simplifications is generated, the id-based tables (indices of indexed identifiers,
+    # definition nodes) must describe THAT input -- also after a re-duplication, which gives shared nodes new ids (F71)
+    import e2e
+    bvtext = ('(set-logic QF_BV)\n(declare-const x (_ BitVec 8))\n(declare-const y (_ BitVec 8))\n(declare-const z (_ BitVec 8))\n'
+              '(assert (= (bvadd x y) z))\n(assert (bvult (bvadd z x) y))\n(check-sat)\n')
+    rjobs = [dict(text=bvtext, opts=['--strategy', st, '-j', '1', '--disable-all', '--constants', '--replace-by-variable'],
+                  cmd=[e2e.TOKPRED, 'all', 'bvadd'], env={}, timeout=240) for st in (('ddmin', 'hybrid') if ctx.thorough else ('ddmin',))]
+    for j, r in zip(rjobs, e2e.run_many(rjobs)):
+        ctx.case(['tables', j['text'], j['opts']], len(r.ev('taskgen')) > 3)
+        ctx.count('task generators of real runs checked for stale tables', len(r.ev('taskgen')))
+        for msg in e2e.analyse(r)['C16']:
+            ctx.violation('impl-violation', input=j['text'], options=j['opts'], command=j['cmd'], observed=msg,
+                          expected='the sort of a node is inferred with tables that were collected for the input the node belongs to')
     # ---- one mutator object lives for a whole pass while the declarations change: a scripted history in which a name is
     # freed (its declaration erased) and then taken by a symbol of another sort; whatever the replacing mutators propose at
     # every step must be well-sorted for the declarations of THAT step
